@@ -192,6 +192,32 @@ def check_run_persistent_state(fx, rep, cg, rule="R02.4"):
             pl = st.get("p")
             if st.get("s") == "Assign" and self_field(pl) and len(pl["proj"]) == 2:
                 per_run.add(pl["proj"][1]["f"])
+    # ... or taken out as a whole: `std::mem::take(&mut self.state)` / `std::mem::replace(&mut self.state, fresh)`
+    refs = {}
+    for bl in run["mir"]["blocks"]:
+        for st in bl.get("stmts", []):
+            rv = st.get("rv") or {}
+            if st.get("s") == "Assign" and rv.get("r") == "Ref" and rv.get("mut") and self_field(rv.get("p")) and len(rv["p"]["proj"]) == 2 and not st["p"]["proj"]:
+                refs[st["p"]["l"]] = rv["p"]["proj"][1]["f"]
+    for _round in range(3):
+        for bl in run["mir"]["blocks"]:
+            for st in bl.get("stmts", []):
+                rv = st.get("rv") or {}
+                if st.get("s") != "Assign" or st["p"]["proj"]:
+                    continue
+                src = None
+                if rv.get("r") == "Ref" and rv.get("mut") and isinstance(rv.get("p"), dict) and rv["p"].get("proj") == ["*"]:
+                    src = rv["p"]["l"]
+                elif rv.get("r") == "Use" and isinstance(rv.get("op"), dict) and isinstance(rv["op"].get("p"), dict) and not rv["op"]["p"].get("proj"):
+                    src = rv["op"]["p"]["l"]
+                if src in refs:
+                    refs[st["p"]["l"]] = refs[src]
+    for bl in run["mir"]["blocks"]:
+        t = bl.get("term") or {}
+        if t.get("t") == "Call" and str((t.get("func") or {}).get("fn", "")).endswith(("mem::take", "mem::replace")) and t.get("args"):
+            a0 = t["args"][0].get("p") or {}
+            if a0.get("l") in refs and not a0.get("proj"):
+                per_run.add(refs[a0["l"]])
     rep.oblige(bool(per_run), rule, "run-resets-its-state", F.loc(run["span"]), "TypeChecker::run no longer replaces its per-run state as a whole: judgements of an earlier run take part in the next one", sample={"rule": rule, "per_run_fields": [fields[i]["name"] for i in sorted(per_run) if i < len(fields)]})
     # types that outlive a run: closure over the fields of the remaining ones, through `dyn Trait` to the implementors
     import re
